@@ -44,7 +44,17 @@ Dev == /\ l <= Len(Rec) /\ Rec[l].ev = "dev"
              /\ st' = post
        /\ env' = env /\ l' = l + 1
 
-TraceNext == Reset \/ Msg \/ Dev
+(* C11 for the mandated commands: the same message from the same state on a response buffer of capacity `cap';
+   `len' is the length of the response on a growable buffer (that run is the next line and is judged by Msg) *)
+Cap == /\ l <= Len(Rec) /\ Rec[l].ev = "cap"
+       /\ LET ev == Rec[l]
+              ok == /\ ev.within                                                    \* never writes beyond the capacity
+                    /\ IF ev.cap >= ev.len THEN ev.code = 0 /\ ev.same               \* fits: identical bytes and effects
+                       ELSE ev.code = -225                                           \* does not fit: -225 Out of memory
+          IN IF ok THEN TRUE ELSE PrintT(<<"BAD", l, ToJson([allowed |-> {}])>>)
+       /\ UNCHANGED <<env, st>> /\ l' = l + 1
+
+TraceNext == Reset \/ Msg \/ Dev \/ Cap
 TraceSpec == TraceInit /\ [][TraceNext]_tvars
 
 Complete == IF TLCGet("stats").diameter - 1 = Len(Rec) THEN TRUE
